@@ -108,8 +108,17 @@ PROPS = {
     "C05": {
         "units": ["machine"],
         "native_cex": "c05_machine_semantics_replay",
-        "native_thorough": "c05_machine_semantics_replay",
-        "native_fallback": "c05_machine_semantics_replay",
+        "native_thorough": ["c05_machine_semantics_replay", "c05_jet_semantics_replay"],
+        "native_fallback": ["c05_machine_semantics_replay", "c05_jet_semantics_replay"],
+        # the jet clause of C05 ("arithmetic, logic and comparison jets computing their specified functions"): which C
+        # function and which source / target type a Core jet is wired to (generated tables) - no contract reaches the FFI;
+        # a change makes the run undecided and the bounded jet enumeration decides
+        "watch": [("src/jet/init/core.rs", "fn:c_jet_ptr", "8bf3a48bbfb3976f"),
+                  ("src/jet/init/core.rs", "impl[=impl Jet for Core] / fn:source_ty", "70212ecd48ee3f34"),
+                  ("src/jet/init/core.rs", "impl[=impl Jet for Core] / fn:target_ty", "c130caffc8451900"),
+                  ("src/jet/init/elements.rs", "fn:c_jet_ptr", "735491e889a220a9"),
+                  ("src/jet/init/elements.rs", "impl[=impl Jet for Elements] / fn:source_ty", "daa7d6f09bf0eb43"),
+                  ("src/jet/init/elements.rs", "impl[=impl Jet for Elements] / fn:target_ty", "708e177110ce8dae")],
         "fallback": {
             "Frame::write_bit": ["c05_frame_write_bit_bounded"],
             "Frame::read_bit": ["c05_frame_read_peek_bounded"],
